@@ -63,6 +63,10 @@ class K:
         v = self.key + 4
         return v
 
+    def __call__(self, x):       # a special method written in Python: selected through an instance it is a method like any other
+        v = x + 11
+        return v
+
 
 class Sub(K):
     """an empty container: its instances are falsy"""
